@@ -25,7 +25,7 @@ ASSUMPTIONS = [
     "library-internal helper generators (WorkQueue.events, batches) need not be closed; only tasks and harness source iterators are checked",
 ]
 
-REQ_NAMES_QUICK = ["stream_in_stream", "stream_next_to_failing", "stream_next_to_failing_deferred", "stream_next_to_root_failure", "shared_stream_both_fail", "nested_stream_item_fails", "plain_bg1", "plain_bg2", "initial_async", "defer1", "defer_stream", "nested", "defer_list", "stream_agen", "defer_in_stream", "two_streams", "nonnull_deferred", "overlap"]
+REQ_NAMES_QUICK = ["failing_defer_owns_streaming_child", "stream_in_stream", "stream_next_to_failing", "stream_next_to_failing_deferred", "stream_next_to_root_failure", "shared_stream_both_fail", "nested_stream_item_fails", "plain_bg1", "plain_bg2", "initial_async", "defer1", "defer_stream", "nested", "defer_list", "stream_agen", "defer_in_stream", "two_streams", "nonnull_deferred", "overlap"]
 STOPS = [("none", None), ("aclose", None), ("abort", None), ("abort", "exc"), ("abort", "value")]
 
 
